@@ -454,8 +454,10 @@ where
         edge: &EdgeOfFunc<'id, Self>,
         args: impl IntoIterator<Item = (VarNo, bool)>,
     ) -> T {
-        // `choices` maps levels to the child number to choose
+        // `choices` maps levels to the child number to choose. Variables without
+        // a value in `args` are treated as `false`, i.e., child 1 ("else").
         let mut choices = FixedBitSet::with_capacity(manager.num_levels() as usize);
+        choices.insert_range(..);
         for (var, val) in args {
             // child 0 is "then"/"true", hence the negation
             choices.set(manager.var_to_level(var) as usize, !val);
